@@ -805,7 +805,7 @@ def conversions_family(run, replay):
         else:
             parts = hdr.get("case", "").split("-")
             seed, k = int(parts[1][1:]), int(parts[2][1:])
-            vk.run_driver(run, ["docs", "--seed", str(seed), "--from", str(k), "--to", str(k + 1), "--out", p,
+            vk.run_driver(run, ["docs", "--seed", str(seed), "--from", str(k), "--to", str(k + 1), "--out", p, "--gotree", run.build_gotree(),
                                 "--maxtips", "20" if hdr.get("tier", "quick") == "quick" else "40"], p)
         r = vk.validate_trace(run, p, "TraceDocs.tla", cfg)
         collect(run, [r])
@@ -813,7 +813,8 @@ def conversions_family(run, replay):
         return vk.finish(run, rule="replay of one recorded case on the current /repo")
     splitter_model(run, "C13")
     ncases, maxtips = (1600, 20) if run.tier == "quick" else (40000, 40)
-    sharded(run, "docs", "C13", ncases, "TraceDocs.tla", cfg, extra_args=["--maxtips", str(maxtips)])
+    gotree = run.build_gotree()
+    sharded(run, "docs", "C13", ncases, "TraceDocs.tla", cfg, extra_args=["--maxtips", str(maxtips), "--gotree", gotree])
     return vk.finish(run,
                      rule="model: the stream splitter ReadUntilSemiColon / ReadMultiTrees loop as a machine over lines (Splitter.tla): every "
                           "document of the bound (lines over {other, ';', blank}), invariants no index underflow, progress, groups = the "
